@@ -848,6 +848,14 @@ func (self *PathNode) handleChild(in *[]PathNode, lp *int, cp *int, p *thrift.Bi
 	return v, nil
 }
 
+// setNode replaces the node of an existing child.
+// The children loaded from the old node don't belong to the new one, thus they are dropped
+// (Marshal writes a node from its children if it has any).
+func (self *PathNode) setNode(val Node) {
+	self.Node = val
+	self.Next = self.Next[:0]
+}
+
 // Error returns non-empty string if the PathNode has error
 func (self PathNode) Error() string {
 	return self.Node.Error()
@@ -976,7 +984,7 @@ func (self *PathNode) SetByStr(key string, val Node, opts *Options) (bool, error
 		// the children are only stored by hash when the map is larger than the threshold (see scanChildren)
 		if n > StoreChildrenByIntHashShreshold && cap(self.Next) >= N {
 			if s := getStrHash(&self.Next, key, N); s != nil {
-				s.Node = val
+				s.setNode(val)
 				return true, nil
 			}
 		}
@@ -985,7 +993,7 @@ func (self *PathNode) SetByStr(key string, val Node, opts *Options) (bool, error
 	for i := range self.Next {
 		v := &self.Next[i]
 		if v.Path.t == PathStrKey && v.Path.str() == key {
-			v.Node = val
+			v.setNode(val)
 			return true, nil
 		}
 	}
@@ -1048,7 +1056,7 @@ func (self *PathNode) SetByInt(key int, val Node, opts *Options) (bool, error) {
 		// the children are only stored by hash when the map is larger than the threshold (see scanChildren)
 		if n > StoreChildrenByIntHashShreshold && cap(self.Next) >= N {
 			if s := getIntHash(&self.Next, uint64(key), N); s != nil {
-				s.Node = val
+				s.setNode(val)
 				return true, nil
 			}
 		}
@@ -1057,7 +1065,7 @@ func (self *PathNode) SetByInt(key int, val Node, opts *Options) (bool, error) {
 	for i := range self.Next {
 		v := &self.Next[i]
 		if v.Path.t == PathIntKey && v.Path.int() == key {
-			v.Node = val
+			v.setNode(val)
 			return true, nil
 		}
 	}
@@ -1112,7 +1120,7 @@ func (self *PathNode) SetField(id thrift.FieldID, val Node, opts *Options) (bool
 	if opts.StoreChildrenById && int(id) < StoreChildrenByIdShreshold && int(id) < len(self.Next) {
 		// only trust the slot if it really holds this field (it may be a hole, or hold an appended field)
 		if v := &self.Next[id]; v.Path.t == PathFieldId && v.Path.id() == id {
-			v.Node = val
+			v.setNode(val)
 			return true, nil
 		}
 	}
@@ -1120,14 +1128,14 @@ func (self *PathNode) SetField(id thrift.FieldID, val Node, opts *Options) (bool
 	for i := StoreChildrenByIdShreshold; i < len(self.Next); i++ {
 		v := &self.Next[i]
 		if v.Path.t == PathFieldId && v.Path.id() == id {
-			v.Node = val
+			v.setNode(val)
 			return true, nil
 		}
 	}
 	for i := 0; i < len(self.Next) && i < StoreChildrenByIdShreshold; i++ {
 		v := &self.Next[i]
 		if v.Path.t == PathFieldId && v.Path.id() == id {
-			v.Node = val
+			v.setNode(val)
 			return true, nil
 		}
 	}
